@@ -1,5 +1,6 @@
 import PqModel.SearchMulti
 import PqModel.SearchNaN
+import PqModel.SearchPages
 
 /-! # C06 — Page search by value never misses a page that contains the value
 
@@ -226,6 +227,75 @@ theorem multiIsAscending_blind_across_null_chunk :
         { nulls := [true, true], ix := { mins := [none, none], maxs := [none, none] }, asc := true, desc := false },
         { nulls := [false, false], ix := { mins := [some 1, some 3], maxs := [some 2, some 4] }, asc := true, desc := false } ]
     multiIsAscending 0 cs = true ∧ findMultiGo false 0 cs 3 = 5 ∧ findMultiGo true 0 cs 3 = 5 := by decide
+
+/-! ## C06 on the VALUES of the pages (`SearchPages.lean`)
+
+The theorems above speak about recorded bounds. These start from what the pages hold: the index is built from
+the values by the writer's steps (`indexOfPages`: null filter, `Page.Bounds`, `IndexPage`, boundary order), the
+column order is the signed / unsigned comparison of bit patterns (`intKey`), and the conclusion is the property
+as stated: a value held by page `p` is never answered with a page after `p`. -/
+
+/-- For ANY bounds function that encloses the values in the column's order (`BoundsFor`: the contract of
+    `Page.Bounds`, whichever kernel computes it): `Find` on the index built from the pages returns, for a value
+    `x` of page `p`, a page `r ≤ p` whose recorded bounds contain `x`. Nulls anywhere, all-null pages, any number
+    of pages and any arrangement of values; both null orderings of the compare function. -/
+theorem find_no_miss_values {α} (nf : Bool) (z : Int) {bnd : List α → Option (α × α)} {key : α → Int}
+    (hb : BoundsFor bnd key) (pages : List (List (Option α))) (p : Nat) (hp : p < pages.length) (x : α)
+    (hx : some x ∈ pages.getD p []) :
+    let ix := indexOfPages bnd key pages
+    let r := find nf (writerOrder z ix == 1) ix (key x)
+    r ≤ p ∧ r < ix.n ∧ contains nf ix r (key x) = true :=
+  PqModel.Search.find_no_miss_values nf z hb pages p hp x hx
+
+/-- The integer columns: INT32/INT64 (`signed = true`) and UINT32/UINT64 (`signed = false`) of width `w`, bounds
+    by the portable loop (`Stats.bounds`, MIRROR of page_bounds_purego.go) in the column's own order. -/
+theorem find_no_miss_int_values (nf signed : Bool) (w : Nat) (pages : List (List (Option (BitVec w)))) (p : Nat)
+    (hp : p < pages.length) (x : BitVec w) (hx : some x ∈ pages.getD p []) :
+    let ix := indexOfPages (intBounds signed w) (intKey signed w) pages
+    let r := find nf (writerOrder 0 ix == 1) ix (intKey signed w x)
+    r ≤ p ∧ r < ix.n ∧ contains nf ix r (intKey signed w x) = true :=
+  PqModel.Search.find_no_miss_values nf 0 (intBounds_sound signed w) pages p hp x hx
+
+/-- UINT64 pages sorted across 2^63 after an all-null page: flagged ASCENDING, searched linearly because of
+    the null page, 2^63 + 5 found in page 2 (the hypotheses of `find_no_miss_int_values` are satisfiable) -/
+def uPages : List (List (Option (BitVec 64))) :=
+  [[none, none], [some 1#64, some 9223372036854775807#64], [some 9223372036854775808#64, some 9223372036854775813#64]]
+
+example : writerOrder 0 (indexOfPages (intBounds false 64) (intKey false 64) uPages) = 1 ∧
+    find false true (indexOfPages (intBounds false 64) (intKey false 64) uPages) (intKey false 64 9223372036854775813#64) = 2 := by
+  decide
+
+example := find_no_miss_int_values false false 64 uPages 2 (by decide) 9223372036854775813#64 (by decide)
+
+/-- page_bounds_amd64.go picks a kernel by the length of the page (`boundsDispatch`): as long as every kernel
+    encloses the values in the column's order, the threshold is irrelevant to `Find`. -/
+theorem find_no_miss_dispatched_kernels {α} (nf : Bool) (z : Int) (t : Nat) {big small : List α → Option (α × α)}
+    {key : α → Int} (hbig : BoundsFor big key) (hsmall : BoundsFor small key)
+    (pages : List (List (Option α))) (p : Nat) (hp : p < pages.length) (x : α) (hx : some x ∈ pages.getD p []) :
+    let ix := indexOfPages (boundsDispatch t big small) key pages
+    let r := find nf (writerOrder z ix == 1) ix (key x)
+    r ≤ p ∧ r < ix.n ∧ contains nf ix r (key x) = true :=
+  PqModel.Search.find_no_miss_values nf z (BoundsFor.dispatch t hbig hsmall) pages p hp x hx
+
+example := find_no_miss_dispatched_kernels false 0 32113 (intBounds_sound false 64) (intBounds_sound false 64)
+  uPages 1 (by decide) 1#64 (by decide)
+
+/-- Seeded change C06-4a on the model: pages of at least `t` values of a UINT64 column get their bounds from the
+    SIGNED kernel (here `t = 2`; the library's threshold is 32113). The page {1, 2^63} is recorded with
+    min = 2^63 > max = 1, no page's bounds contain its values and `Find` answers NumPages for 1. The signed kernel
+    does not satisfy `BoundsFor` under the unsigned key — the hypothesis `find_no_miss_dispatched_kernels` needs. -/
+theorem signed_kernel_on_unsigned_column_misses :
+    let pages : List (List (Option (BitVec 64))) := [[some 1#64, some 9223372036854775808#64], [some 7#64]]
+    let ix := indexOfPages (boundsDispatch 2 (intBounds true 64) (intBounds false 64)) (intKey false 64) pages
+    ix.mins = [some 9223372036854775808, some 7] ∧ ix.maxs = [some 1, some 7] ∧
+    find false (writerOrder 0 ix == 1) ix (intKey false 64 1#64) = 2 ∧
+    find false (writerOrder 0 ix == 1) ix (intKey false 64 7#64) = 1 := by decide
+
+theorem signed_kernel_not_sound_for_unsigned_key : ¬ BoundsFor (intBounds true 64) (intKey false 64) := by
+  intro h
+  have := h.encloses [1#64, 9223372036854775808#64] 9223372036854775808#64 1#64 (by decide) 1#64 (by simp)
+  revert this
+  decide
 
 /-! ## FLOAT / DOUBLE indexes with NaN bounds (`SearchNaN.lean`)
 
